@@ -199,10 +199,14 @@ def eval_sym(sym, leaf):
     if k == 'cast':
         x = eval_sym(sym[1], leaf)
         to = sym[-1]
-        bits = {'u8': 8, 'u16': 16, 'u32': 32, 'u64': 64, 'usize': 64}.get(to)
-        if bits is None:
+        bits = {'u8': 8, 'u16': 16, 'u32': 32, 'u64': 64, 'usize': 64, 'u128': 128}.get(to)
+        if bits is not None:
+            return x & ((1 << bits) - 1)
+        sbits = {'i8': 8, 'i16': 16, 'i32': 32, 'i64': 64, 'isize': 64, 'i128': 128}.get(to)
+        if sbits is None:
             raise NoEval('cast to ' + str(to))
-        return x & ((1 << bits) - 1)
+        x &= (1 << sbits) - 1
+        return x - (1 << sbits) if x >= 1 << (sbits - 1) else x
     if k == 'bin':
         a, b = eval_sym(sym[2], leaf), eval_sym(sym[3], leaf)
         op = sym[1].replace('WithOverflow', '')
